@@ -11,7 +11,7 @@ BUDGET_S = {'quick': 90, 'thorough': 900}
 BOUNDS = {
     'quick': 'call graph outer -> mid -> leaf plus an independent sibling, each of outer/mid/leaf a subbuild or a '
              'build_file (all 8 combinations); one function gets arbitrary (old, new) versions from '
-             '{absent, None, bool, int, float, str, [int, {k: int}], {a:int, b:int} in either key order} with symbolic '
+             '{absent, None, bool, int, float, str, [int, {k: int}], (int, {k: int}), {7: int}, {"7": int}, {a:int, b:int} in either key order} with symbolic '
              'leaves, the others keep one version; second family: all three vary over {absent, int, float}',
     'thorough': 'plus diamond graph (two callers of one leaf function name with different arguments) and three-build histories',
 }
@@ -22,7 +22,7 @@ WITNESSES = {'quick': ['version-changed-reexecuted', 'json-equal-nothing-reexecu
              'thorough': ['version-changed-reexecuted', 'json-equal-nothing-reexecuted']}
 
 NAMES = ['outer', 'mid', 'leaf']
-SHAPES = ['absent', 'none', 'bool', 'int', 'float', 'str', 'nested', 'dict-ab', 'dict-ba', 'empty']
+SHAPES = ['absent', 'none', 'bool', 'int', 'float', 'str', 'nested', 'dict-ab', 'dict-ba', 'empty', 'intkey', 'strkey', 'tuple']
 
 
 def families(tier):
@@ -51,12 +51,18 @@ def version(eng, tag, shapes):
         return ('val', [eng.fresh_int('va' + tag), {'k': eng.fresh_int('vk' + tag)}])
     if k == 'empty':
         return ('val', [[], {}, ''][eng.choose('vempty' + tag, 3)])
+    if k in ('intkey', 'strkey'):
+        # versions are compared as JSON values: {7: x} is {'7': x}
+        return ('val', {(7 if k == 'intkey' else '7'): eng.fresh_int('vik' + tag)})
+    if k == 'tuple':
+        return ('val', (eng.fresh_int('va' + tag), {'k': eng.fresh_int('vk' + tag)}))
     a, b = eng.fresh_int('vda' + tag), eng.fresh_int('vdb' + tag)
     return ('val', {'a': a, 'b': b} if k == 'dict-ab' else {'b': b, 'a': a})
 
 
-def vval(v):
-    return None if v[0] == 'absent' else v[1]
+def vval(eng, v):
+    """the version as the JSON value it denotes (absent = None; tuples = lists; keys stringified)"""
+    return None if v[0] == 'absent' else J.spec_roundtrip(eng, v[1])
 
 
 def vmap(m):
@@ -108,7 +114,7 @@ def harness(eng, fam, P):
             if b > 0:
                 for sid, n in sid_name.items():
                     if n in NAMES:
-                        same_v = J.spec_equal(vval(vers[b - 1][n]), vval(vers[b][n]))
+                        same_v = J.spec_equal(vval(eng, vers[b - 1][n]), vval(eng, vers[b][n]))
                     else:
                         same_v = True
                     eng.constrain(L.implies(same_v, beh[sid] == behs[b - 1][sid]))
@@ -117,7 +123,7 @@ def harness(eng, fam, P):
                 leaf_sid = [sid for sid, n in sid_name.items() if n == 'leaf'][0]
                 r = bool(eng.choose('leafraises%d' % b, 2))
                 if b > 0:
-                    same_v = J.spec_equal(vval(vers[b - 1]['leaf']), vval(vers[b]['leaf']))
+                    same_v = J.spec_equal(vval(eng, vers[b - 1]['leaf']), vval(eng, vers[b]['leaf']))
                     eng.assume(L.implies(same_v, r == (behs[b - 1][leaf_sid] is RAISES)), 'JSON-equal versions of a function behave alike (raising or not)')
                 if r:
                     beh[leaf_sid] = RAISES
@@ -128,7 +134,7 @@ def harness(eng, fam, P):
             d.check_same('C06', (fam, 'build%d' % (b + 1)))
             if b == 0:
                 continue
-            changed = {n: L.not_(J.spec_equal(vval(vers[b - 1][n]), vval(vers[b][n]))) for n in NAMES}
+            changed = {n: L.not_(J.spec_equal(vval(eng, vers[b - 1][n]), vval(eng, vers[b][n]))) for n in NAMES}
             changed['side'] = False
             invoked = set(sid_name[s] for s in d.impl_calls)
             for n, deps in callers.items():
@@ -142,7 +148,7 @@ def harness(eng, fam, P):
             else:
                 eng.witness('json-equal-nothing-reexecuted')
                 for n in NAMES:
-                    a, c2 = vval(vers[b - 1][n]), vval(vers[b][n])
+                    a, c2 = vval(eng, vers[b - 1][n]), vval(eng, vers[b][n])
                     if {a.__class__, c2.__class__} == {int, float}:
                         eng.witness('int-vs-float-equal')
         eng.sample({'family': fam, 'program': show(body), 'versions': [J.concretise(vmap(v)) for v in vers]})
